@@ -11,3 +11,6 @@ def run(ctx, rep):
         for prec, f in fam(mod, pat):
             cond._kase_zeroed(mod, rep, f, "KASE0")
     rep.rule("KASE0", "every caller of ?lacon_ stores kase := 0 before the loop containing the call (start of a fresh reverse-communication run)", floor=8)
+    from ..rules import more3
+    more3.rule_work_zero(mod, rep)
+    more3.rule_cursor_reset(mod, rep)
